@@ -68,7 +68,7 @@ func ruleBounds(c *Ctx) *RuleResult {
 		r.Notes = append(r.Notes, fmt.Sprintf("compiler prove pass: %d bounds checks left in package jmespath (go build -gcflags=-d=ssa/check_bce/debug=1)", len(unproven)))
 	}
 	for _, fn := range allFuncs(c.SLib) {
-		if !c.scopeOf(fn)["eval"] || c.file(fn.Pos()) == "api.go" {
+		if !c.scopeOf(fn)["eval"] || c.scopeOf(fn)["api"] {
 			continue
 		}
 		if strings.HasSuffix(c.file(fn.Pos()), "_string.go") {
@@ -281,14 +281,15 @@ func ruleProgress(c *Ctx) *RuleResult {
 		if sc == nil {
 			return false
 		}
-		if c.file(fn.Pos()) == "lexer.go" {
-			return sc == next
+		if rt := fn.Signature.Recv(); rt != nil {
+			if pt, ok := rt.Type().(*types.Pointer); ok && types.Identical(pt.Elem(), c.A.LexerT) {
+				return sc == next
+			}
 		}
 		return sc == c.A.Advance || sc == c.A.Match || (c.movesCursor(sc) && sc != c.A.Advance)
 	}
 	for _, fn := range allFuncs(c.SLib) {
-		f := c.file(fn.Pos())
-		if f != "lexer.go" && f != "parser.go" {
+		if sc := c.scopeOf(fn); !sc["parse"] || sc["eval"] {
 			continue
 		}
 		n := 0
